@@ -70,6 +70,66 @@ theorem c14_find_node_value (p : ShaderPackage) (sel : UInt32) (i : Nat)
     (h : Shpk.findNodeIdx p sel = .ok (some i)) : Shpk.findNode p sel = .ok p.nodes[i]? := by
   simp [Shpk.findNode, h]
 
+/-! ## shader packages: parsing returns what the file stores -/
+
+/-- For every well-formed stored package `f` (any number of vertex / pixel shaders with their four
+parameter lists, material parameters with or without defaults, key tables, nodes with passes,
+aliases; any blob region and string heap), `ShaderPackage::from_existing` on the encoded file
+returns exactly `view f`: every count and field, every parameter with the name stored at its heap
+offset, every shader's additional header and bytecode slice, and the selector table. -/
+theorem c14_shpk_parse_encode (f : PackageF) (h : WF f = true) :
+    Shpk.fromExisting (encode f) = .ok (view f) :=
+  Shpk.fromExisting_encode f h
+
+/-- non-vacuity: a DX11 package with one vertex shader (8-byte header + 2 bytes of bytecode, one
+texture parameter `g_T`), one pixel shader, one material parameter with a default, one system key,
+two nodes carrying the same selector, and an alias -/
+def examplePackage : PackageF :=
+  { version := 0x0B01, format := [0x44, 0x58, 0x31, 0x31], fileLength := 0
+    materialParametersSize := 4, hasMatParamDefaults := 1, unknown1 := 0, unknown2 := 0
+    vertexShaders := [{ dataOffset := 0, dataSize := 2, scalars := [], resources := [], uavs := []
+                        textures := [{ id := 7, strOff := 0, strLen := 4, unknown := 0, slot := 1, size := 1 }] }]
+    pixelShaders := [{ dataOffset := 10, dataSize := 1, scalars := [], resources := [], uavs := [], textures := [] }]
+    materialParameters := [{ id := 9, byteOffset := 0, byteSize := 4 }]
+    matParamDefaults := [0x3F800000]
+    scalars := [], samplers := [], textures := [], uavs := []
+    systemKeys := [{ id := 1, defaultValue := 2 }], sceneKeys := [], materialKeys := []
+    subViewKey1Default := 3, subViewKey2Default := 4
+    nodes := [{ selector := 77, passIndices := List.replicate 16 0xFF, systemKeys := [2], sceneKeys := []
+                materialKeys := [], subviewKeys := [3, 4], passes := [{ id := 5, vertexShader := 0, pixelShader := 0 }] },
+              { selector := 77, passIndices := List.replicate 16 0, systemKeys := [6], sceneKeys := []
+                materialKeys := [], subviewKeys := [3, 4], passes := [] }]
+    aliases := [{ selector := 78, node := 1 }]
+    blob := [1, 2, 3, 4, 5, 6, 7, 8, 0xA0, 0xA1, 0xB0], strings := [0x67, 0x5F, 0x54, 0] }
+
+example : WF examplePackage = true := by decide +kernel
+example : Shpk.fromExisting (encode examplePackage) = .ok (view examplePackage) :=
+  c14_shpk_parse_encode _ (by decide +kernel)
+example : ((view examplePackage).vertexShaders.map (·.bytecode)) = [[0xA0, 0xA1]] := by decide +kernel
+example : ((view examplePackage).vertexShaders.map (·.textureParameters.map (·.name))) =
+    [[[0x67, 0x5F, 0x54]]] := by decide +kernel
+example : resolve (view examplePackage).nodes (view examplePackage).nodeAliases 77 = some 0 := by
+  decide +kernel
+example : resolve (view examplePackage).nodes (view examplePackage).nodeAliases 78 = some 1 := by
+  decide +kernel
+
+/-- `find_node` on a parsed, well-formed package resolves selectors as the specification says
+(`resolve` on the stored nodes and aliases). -/
+theorem c14_shpk_find_node (f : PackageF) (h : WF f = true) (sel : UInt32) :
+    ∃ p, Shpk.fromExisting (encode f) = .ok p ∧
+      Shpk.findNodeIdx p sel =
+        match resolve (f.nodes.map viewNode) f.aliases sel with
+        | none => .ok none
+        | some i => if i < f.nodes.length then .ok (some i) else .error .panic := by
+  refine ⟨view f, c14_shpk_parse_encode f h, ?_⟩
+  have hn : (view f).nodes.length < 4294967296 := by
+    simp only [WF, Bool.and_eq_true, decide_eq_true_eq] at h
+    simp only [view, List.length_map]
+    exact h.1.1.1.1.1.1.1.1.1.1.1.1.1.1.2
+  have := c14_find_node (view f) sel
+    (c14_from_existing_selectors _ _ (c14_shpk_parse_encode f h)) hn
+  simpa only [view, List.length_map] using this
+
 /-! ## shader-key CRC -/
 
 /-- `ShaderPackage::crc` is the reflected CRC-32 with zero initial value and no final XOR
